@@ -413,3 +413,4 @@ package iterator
 //@   ensures result && len(iters) > 0 ==> (forall k int {iters[k]} :: 0 <= k && k < len(iters) ==> iters[k].n - old(iters[k].pos) == iters[0].n - old(iters[0].pos)) && eqPrefix(iters, iters[0].n - old(iters[0].pos))
 //@   ensures !result ==> 1 <= wk && wk < len(iters) && 0 <= wt && wt <= iters[0].n - old(iters[0].pos) && wt <= iters[wk].n - old(iters[wk].pos)
 //@       && ((wt < iters[0].n - old(iters[0].pos)) != (wt < iters[wk].n - old(iters[wk].pos)) || (wt < iters[0].n - old(iters[0].pos) && iters[0].seq[old(iters[0].pos) + wt] != iters[wk].seq[old(iters[wk].pos) + wt]))
+
